@@ -1,6 +1,7 @@
 import PPLV.Interval.Model
 import PPLV.Interval.Spec
 import PPLV.Interval.Linearize
+import PPLV.Interval.IntModel
 /-!
 native driver `pplv_c12`.
 
@@ -9,13 +10,30 @@ stdin: the journal of `harness/c12_interval.cc`, one event per line
     <id> <ty> <op> <I> <J> <R> <ok>
 
 * `ty`  : `Q` (`Rational_Interval`, mpq, policy rational), `Z` (`Interval<mpz_class, Z_Box_Interval_Info>`),
-          `D` (`Interval<double, Floating_Point_Box_Interval_Info>`), `F` (the same with `float`)
+          `D` (`Interval<double, Floating_Point_Box_Interval_Info>`), `F` (the same with `float`),
+          `b B h i l` (`Interval<int8_t | uint8_t | int16_t | int32_t | int64_t, Native_Integer_Box_Interval_Info>`:
+          the model instantiated with `Policy.integer` and `Rounding.native`, `PPLV/Interval/IntModel.lean`)
 * `op`  : `neg add sub mul div join meet diff join2 meet2 contains scontains disjoint eq
           rex:<rel> run:<rel> wrap:<w>:<u|s> assign cc76`
 * `I J` : operands as the harness built them, `R` the result read from the real library:
           `E` (is_empty()), or `[l,u]` / `(l,u)` … with `l,u` exact rationals or `-inf` / `+inf`,
           or `T` / `F` for predicates; `-` for a missing operand
 * `ok`  : `1`/`0`, `R.OK()`
+
+Events of `Boundary_NS::adjust_boundary` itself (types `b B l`):
+
+    <id> <ty> adj:<L|U>:<open>:<r> <x> - <x'>,<special>,<open bit>,<returned Result> 1
+    <id> <ty> adjop:<L|U>:<op>:<open> <x1> <x2|-> <x'>,<special>,<open bit>,<returned Result> 1
+
+Chains of `Int8_Box::affine_image` on 2-dimensional boxes (`x_k := (a*x0 + b*x1 + c) / d`), judged on the real box only
+(sampled integer points of the argument box have their image inside the result box):
+
+    <id> b box:<k>:<a>:<b>:<c>:<d> <I0>;<I1> - <R0>;<R1>|E <ok>
+
+`adj`: the model `Native.adjustBoundary` on the literal code `r`; `adjop`: the C11 model of the checked operation
+(`Native.chk`, destination = the harness's poison value) followed by `Native.adjustBoundary` must give exactly the
+observed value, bits and returned code (`model`); and the REAL boundary must be on the safe side of the exact result
+(`enclose`).
 
 args: `--d3 0|1`  `--d12 0|1` : whether the library measured at check time shows defect 3 / 12.
 
@@ -94,13 +112,22 @@ structure Ty where
   rnd : Rounding
   exact : Bool       -- boundary type is exact (mpq, mpz)
   integer : Bool
+  native : Option PPLV.Checked.IntTy := none   -- boundary type is a native bounded integer
 
 def tyOf (s : String) : Option Ty :=
-  if s == "Q" then some ⟨"Q", Policy.rational, Rounding.id, true, false⟩
-  else if s == "Z" then some ⟨"Z", Policy.integer, Rounding.int, true, true⟩
-  else if s == "D" then some ⟨"D", Policy.floating, Rounding.double, false, false⟩
-  else if s == "F" then some ⟨"F", Policy.floating, Rounding.float 24 (-126) 127, false, false⟩
-  else if s == "L" then some ⟨"L", Policy.floating, Rounding.float 64 (-16382) 16383, false, false⟩
+  let nat (bits : Nat) (signed : Bool) : Option Ty :=
+    let ty := Native.tyOfBits bits signed
+    some { name := s, pol := Policy.integer, rnd := Rounding.native ty, exact := false, integer := true, native := some ty }
+  if s == "Q" then some ⟨"Q", Policy.rational, Rounding.id, true, false, none⟩
+  else if s == "Z" then some ⟨"Z", Policy.integer, Rounding.int, true, true, none⟩
+  else if s == "D" then some ⟨"D", Policy.floating, Rounding.double, false, false, none⟩
+  else if s == "F" then some ⟨"F", Policy.floating, Rounding.float 24 (-126) 127, false, false, none⟩
+  else if s == "L" then some ⟨"L", Policy.floating, Rounding.float 64 (-16382) 16383, false, false, none⟩
+  else if s == "b" then nat 8 true
+  else if s == "B" then nat 8 false
+  else if s == "h" then nat 16 true
+  else if s == "i" then nat 32 true
+  else if s == "l" then nat 64 true
   else none
 
 /-- how the harness prints an interval: emptiness, then bounds with the *reported* openness -/
@@ -206,6 +233,22 @@ def d12Tags (x : Iv) (w : Nat) : List String :=
   | fin l, fin h => if h - l == pow2N w then ["width_eq_2_pow_w"] else []
   | _, _ => []
 
+def showSI : Spec.SI → String
+  | none => "E"
+  | some (l, u) => (if l.e > 0 then "(" else "[") ++ showExt l.v ++ "," ++ showExt u.v ++ (if u.e < 0 then ")" else "]")
+
+/-- native bounded integers: the integer hull of the exact image is a value of the type (every finite
+bound inside `[cmin, cmax]`; an infinite side of the hull is an infinite side of the image) -/
+def hullRepresentable (ty : PPLV.Checked.IntTy) (specT : Spec.SI) : Bool :=
+  match specT with
+  | none => true
+  | some (l, u) =>
+    let inR (v : ExtRat) : Bool :=
+      match v with
+      | fin q => decide ((ty.cmin : Rat) ≤ q) && decide (q ≤ (ty.cmax : Rat))
+      | _ => true
+    inR l.v && inR u.v
+
 def checkSetResult (id : String) (t : Ty) (tags : String) (realSI : Spec.SI) (spec : Spec.SI)
     (exactOp : Bool) (noRounding : Bool := false) : List String :=
   let specT := if t.integer then Spec.toInteger spec else spec
@@ -220,7 +263,14 @@ def checkSetResult (id : String) (t : Ty) (tags : String) (realSI : Spec.SI) (sp
     else if (t.exact || noRounding) && exactOp && !Spec.seteq specT realSI then
       [mism id "exact" tags (if t.exact then "exact boundary type, result is not the least interval"
         else "operation without rounding, result is not the least interval")]
-    else []
+    else match t.native with
+      | some ty =>
+        -- the library is exact whenever the result is representable
+        if exactOp && hullRepresentable ty specT && !Spec.seteq specT realSI then
+          [mism id "exact" tags ("native integer type, the integer hull of the exact image is representable and the result is not it: hull="
+            ++ showSI specT)]
+        else []
+      | none => []
   e1 ++ e2
 
 def parseLF (t : Ty) (s : String) : Option (List Iv) :=
@@ -534,6 +584,105 @@ def processLin (id cfgs ops as bs rs : String) : List String :=
       | _ => [mism id "parse" "" "bad ceval event"]
     else [mism id "parse" "" ("unknown op " ++ ops)]
 
+/-! ## `Boundary_NS::adjust_boundary` events (`adj:` / `adjop:`) -/
+
+/-- the harness's poison: what it stores in a boundary before the operation (`NatPoison` of the harness) -/
+def natPoison (ty : PPLV.Checked.IntTy) (upper : Bool) : Int :=
+  let lo : Int := (PPLV.Checked.pow2 ty.bits - 1) / 3          -- 0x55…
+  if !upper then lo else if ty.signed then -(lo + 1) else 42    -- 0xAA… as a signed value / 0x2A
+
+def showAdj (x : Native.NB) (r : PPLV.Checked.Result) : String :=
+  toString x.raw ++ "," ++ (if x.special then "1" else "0") ++ "," ++ (if x.open then "1" else "0") ++ ","
+    ++ toString r.toNat
+
+def processAdj (id : String) (t : Ty) (ops is js rs : String) : List String :=
+  match t.native with
+  | none => [mism id "parse" "" "adjust_boundary event on a type that is not a native integer"]
+  | some ty =>
+    match ops.splitOn ":" with
+    | ["adj", side, opn, rc] =>
+      match is.toInt?, rc.toNat? with
+      | some x, some r =>
+        let bt : BT := if side == "U" then .upper else .lower
+        match Native.adjustBoundary Policy.integer bt { raw := x } (opn == "1") (PPLV.Checked.Result.ofNat r) with
+        | none => [mism id "model" "" ("the model reaches the PPL_UNREACHABLE label on code " ++ rc ++ "; real=" ++ rs)]
+        | some (nb, ret) =>
+          let ms := showAdj nb ret
+          if ms == rs then [] else [mism id "model" "" ("model=" ++ ms ++ " real=" ++ rs)]
+      | _, _ => [mism id "parse" "" "bad adj event"]
+    | ["adjop", side, opname, opn] =>
+      let upper := side == "U"
+      let bt : BT := if upper then .upper else .lower
+      let op? : Option PPLV.Checked.IntOp :=
+        if opname == "add" then some .add else if opname == "sub" then some .sub
+        else if opname == "mul" then some .mul else if opname == "div" then some .div
+        else if opname == "neg" then some .neg else if opname == "assign" then some (.assign ty Native.cop)
+        else none
+      let y? : Option Int := if js == "-" then some 0 else js.toInt?
+      match op?, is.toInt?, y?, rs.splitOn "," with
+      | some op, some x, some y, [rraw, rspec, _ropen, _rret] =>
+        let out := Native.chk ty op bt (natPoison ty upper) x y
+        let m :=
+          match Native.adjustBoundary Policy.integer bt { raw := out.1 } (opn == "1") out.2 with
+          | none => [mism id "model" "" ("the model reaches the PPL_UNREACHABLE label on code "
+              ++ toString out.2.toNat ++ " of the checked operation; real=" ++ rs)]
+          | some (nb, ret) =>
+            let ms := showAdj nb ret
+            if ms == rs then [] else [mism id "model" "" ("model=" ++ ms ++ " (checked operation: "
+              ++ toString out.1 ++ "," ++ toString out.2.toNat ++ ") real=" ++ rs)]
+        -- soundness of the REAL boundary: a finite lower bound is ≤ the exact result, a finite upper bound ≥
+        let exact? : Option Rat :=
+          if opname == "add" then some ((x : Rat) + y) else if opname == "sub" then some ((x : Rat) - y)
+          else if opname == "mul" then some ((x : Rat) * y)
+          else if opname == "div" then (if y == 0 then none else some ((x : Rat) / y))
+          else if opname == "neg" then some (-(x : Rat)) else some (x : Rat)
+        let e :=
+          match exact?, rraw.toInt? with
+          | some q, some raw =>
+            if rspec == "1" then []
+            else if !upper && !((raw : Rat) ≤ q) then
+              [mism id "enclose" "" ("finite lower boundary " ++ toString raw ++ " above the exact result " ++ showRat q)]
+            else if upper && !(q ≤ (raw : Rat)) then
+              [mism id "enclose" "" ("finite upper boundary " ++ toString raw ++ " below the exact result " ++ showRat q)]
+            else if decide (raw < ty.cmin) || decide (ty.cmax < raw) then
+              [mism id "enclose" "" ("boundary value " ++ toString raw ++ " is not a value of the type")]
+            else []
+          | _, _ => [mism id "parse" "" "bad adjop result"]
+        m ++ e
+      | _, _, _, _ => [mism id "parse" "" "bad adjop event"]
+    | _ => [mism id "parse" "" ("unknown op " ++ ops)]
+
+/-! ## `Int8_Box::affine_image` chains (`box:<k>:<a>:<b>:<c>:<d>`): no model, the verdict is taken on the real box -/
+
+def processBox (id : String) (t : Ty) (ops is rs oks : String) : List String :=
+  let okl := if oks == "0" then [mism id "okinv" "" "OK() of the result box is false"] else []
+  match (ops.splitOn ":").map String.toInt?, (is.splitOn ";").mapM parseVal with
+  | [_, some k, some a, some b, some c, some d], some [v0, v1] =>
+    let s0 := valToSI v0
+    let s1 := valToSI v1
+    let pts : List (Int × Int) := ((intSamples s0).take 9).flatMap fun x => ((intSamples s1).take 9).map fun y => (x, y)
+    if d == 0 then [mism id "parse" "" "zero denominator"]
+    else if rs == "E" then
+      (if pts.isEmpty then [] else [mism id "empty" "" "result box reported empty, the argument box has integer points"]) ++ okl
+    else
+      match (rs.splitOn ";").mapM parseVal with
+      | some [r0, r1] =>
+        let q0 := valToSI r0
+        let q1 := valToSI r1
+        let _ := t
+        let bad := pts.filterMap fun (x, y) =>
+          let img : Rat := ((a * x + b * y + c : Int) : Rat) / (d : Rat)
+          let x' : Rat := if k == 0 then img else (x : Rat)
+          let y' : Rat := if k == 1 then img else (y : Rat)
+          if Spec.mem q0 x' && Spec.mem q1 y' then none else some (x, y, x', y')
+        (match bad with
+         | [] => []
+         | (x, y, x', y') :: _ =>
+           [mism id "enclose" "" ("point (" ++ toString x ++ "," ++ toString y ++ ") has image (" ++ showRat x' ++ "," ++ showRat y'
+             ++ ") outside the result box " ++ rs ++ " (" ++ toString bad.length ++ " sampled points)")]) ++ okl
+      | _ => [mism id "parse" "" "bad result box"]
+  | _, _ => [mism id "parse" "" "bad box event"]
+
 def process (d3 d12 : Bool) (line : String) : List String :=
   let toks := (line.trimAscii.toString.splitOn " ").filter (· != "")
   match toks with
@@ -545,6 +694,18 @@ def process (d3 d12 : Bool) (line : String) : List String :=
       match tyOf tys with
       | some t =>
         let r := processLF d3 id t ops is js rs
+        if r.isEmpty then ["ok " ++ id] else r
+      | none => [mism id "parse" "" "unknown type"]
+    else if ops.startsWith "box:" then
+      match tyOf tys with
+      | some t =>
+        let r := processBox id t ops is rs oks
+        if r.isEmpty then ["ok " ++ id] else r
+      | none => [mism id "parse" "" "unknown type"]
+    else if ops.startsWith "adj" then
+      match tyOf tys with
+      | some t =>
+        let r := processAdj id t ops is js rs
         if r.isEmpty then ["ok " ++ id] else r
       | none => [mism id "parse" "" "unknown type"]
     else
@@ -563,7 +724,9 @@ def process (d3 d12 : Bool) (line : String) : List String :=
       let okl := oklT ""
       -- model result
       -- negation, copies, joins, meets, differences and refinements involve no rounding: exact for every type
+      -- (native bounded integers: the negation of the least value overflows)
       let noRounding := opn != "add" && opn != "sub" && opn != "mul" && opn != "div"
+        && !(t.native.isSome && opn == "neg")
       let setOp (modelRes : Iv) (spec : Spec.SI) (exactOp : Bool) (tags : List String)
           (skipModel : Bool) (encl : List String) : List String :=
         let tg := ",".intercalate tags
@@ -715,7 +878,7 @@ def selftest (d3 : Bool) : List String :=
   let ivs : List Iv := Iv.empty :: (los.flatMap fun l => his.filterMap fun h =>
     let x : Iv := ⟨l, h⟩
     if isEmpty p x then none else some x)
-  let t : Ty := ⟨"Q", p, R, true, false⟩
+  let t : Ty := ⟨"Q", p, R, true, false, none⟩
   let ops : List (String × (Iv → Iv → Iv) × (Spec.SI → Spec.SI → Spec.SI)) :=
     [("add", addAssign p R, Spec.add), ("sub", subAssign p R, Spec.sub), ("mul", mulAssign d3 p R, Spec.mul),
      ("div", divAssign p R, Spec.div), ("join", joinAssign p R, Spec.join), ("meet", intersectAssign p R, Spec.meet),
